@@ -43,9 +43,30 @@ def _holds(p, flag: str) -> Optional[bool]:
     return res
 
 
+def _self_helper_inliner(ctx, fn: FuncInfo):
+    """`self._helper(model)` as a statement: walk the helper's body in place when it is a method of the same class hierarchy whose
+    parameters are passed under their own names (so no renaming is needed) and that returns nothing."""
+    repo = ctx.repo
+
+    def inl(call: ast.Call):
+        if not (isinstance(call.func, ast.Attribute) and isinstance(call.func.value, ast.Name) and call.func.value.id == 'self' and fn.cls is not None):
+            return None
+        m = repo.resolve_method(fn.cls, call.func.attr)
+        if m is None or m is fn or m.name in ('Calculate', 'read_parameters', '__init__'):
+            return None
+        params = [a.arg for a in m.node.args.args][1:]
+        args = [norm(a) for a in call.args]
+        if call.keywords or args != params:
+            return None
+        if any(isinstance(n, ast.Return) and n.value is not None for n in ast.walk(m.node)):
+            return None
+        return list(m.node.body)
+    return inl
+
+
 def _final(ctx, fn: FuncInfo, key: str, also: Tuple[str, ...] = ()):
     """Paths of fn w.r.t. one key, without dependency slicing; yields (path, Rat of the key's final definition)."""
-    pe = PathEnumerator(fn.node.body, {key, *also}, slice_deps='locals')
+    pe = PathEnumerator(fn.node.body, {key, *also}, slice_deps='locals', inline_calls=_self_helper_inliner(ctx, fn))
     out = []
     for p in pe.paths():
         d = p.env.get(key)
